@@ -61,7 +61,12 @@ def parse_format(I, fmt):
         else:
             I.raise_py('struct.error', 'bad char in struct format')
         if native and ch not in 'sxc?' and off % size != 0:
-            raise OutOfSubset('native struct format %r needs alignment padding (not modelled)' % fmt)
+            # native mode ('@' or no prefix): every number is aligned to its own size (x86-64 Linux: alignment == size for
+            # h i l q e f d); CPython inserts zero pad bytes before it and none at the end
+            pad = size - off % size
+            out.extend([('x', 1, False)] * pad)
+            off += pad
+            I.note_assumption('struct native format %r: %d alignment pad byte(s) as on x86-64 Linux' % (fmt, pad))
         out.append((ch, size, signed))
         off += size
     if native:
@@ -108,7 +113,9 @@ _FSORT = {'e': F16, 'f': F32, 'd': F64}
 _FBITS = {'e': 16, 'f': 32, 'd': 64}
 
 
-def float_to_bytes(I, v, code, big):
+def float_to_bytes(I, v, code, big, native=False):
+    # native=True: format without byte-order prefix; CPython's native 'f' is a C cast (a too large double becomes inf, no
+    # OverflowError), unlike the standard modes
     size = _FBITS[code] // 8
     if isinstance(v, (bool, int)) and not isinstance(v, float):
         try:
@@ -117,7 +124,7 @@ def float_to_bytes(I, v, code, big):
             I.raise_py('OverflowError', 'int too large to convert to float')
     if isinstance(v, float):
         try:
-            bs = list(_struct.pack('<' + code, v))
+            bs = list(_struct.pack(('@' if native and code == 'f' else '<') + code, v))
         except OverflowError as e:
             I.raise_py('OverflowError', str(e))
         return bs[::-1] if big else bs
@@ -140,7 +147,7 @@ def float_to_bytes(I, v, code, big):
         y = z3.fpFPToFP(RNE, x, _FSORT[code])
         # CPython raises OverflowError when a finite double rounds to infinity
         ovf = z3.And(z3.Not(z3.fpIsInf(x)), z3.Not(z3.fpIsNaN(x)), z3.fpIsInf(y))
-        if I.path.decide(ovf):
+        if not (native and code == 'f') and I.path.decide(ovf):
             I.raise_py('OverflowError', 'float too large to pack with %s format' % code)
     else:
         y = x
@@ -190,7 +197,7 @@ def pack(I, fmt, args):
         elif ch in 'efd':
             if not (is_intlike(v) or is_floatlike(v)):
                 I.raise_py('struct.error', 'required argument is not a float')
-            out.extend(float_to_bytes(I, v, ch, big))
+            out.extend(float_to_bytes(I, v, ch, big, native=not (isinstance(fmt, str) and fmt[:1] in ('<', '>', '=', '!'))))
         elif ch == 's':
             if not isinstance(v, (PBytes, PBytearray)):
                 I.raise_py('struct.error', "argument for 's' must be a bytes object")
